@@ -4,7 +4,7 @@
 S=$1; P=$2; T=${3:-quick}
 cd /verif
 if ! git -C /repo diff --quiet; then echo "/repo has local changes; refusing"; exit 9; fi
-git -C /repo apply /verif/seeded/$S/patch.diff || { echo "patch does not apply"; exit 9; }
+git -C /repo apply --whitespace=nowarn /verif/seeded/$S/patch.diff 2>/dev/null || { echo "patch does not apply"; exit 9; }
 python3 check.py check $P --tier $T > /tmp/seed_$S_$P.out 2>&1; RC=$?
 git -C /repo checkout -- .
 NV=$(grep -c '^VIOLATION' /tmp/seed_$S_$P.out)
